@@ -39,11 +39,11 @@ LEVEL_TEXT = ('Machine-checked theorems, for every state of a TopologicalSorter 
               'tweens and view derivers nest in list order (first outermost), an explicit tween list wins; the regenerated default '
               'deriver declarations sort with secured_view first and rendered_view/mapped_view innermost. Model tied to the code by '
               '21 shape pins, regenerated constants and a differential run; the Coq judge is run on the implementation\'s answers.')
-LEVEL_NOTE = ('Trusted: Coq kernel; hand-written model (validated by correspondence, shape-pinned); Python harness. Respects/unsatisfied '
-              'theorems are stated over the state fields (order, name2before, req_before); their reading over declaration lists is '
-              'proved for the names only (C18_names_of_ops) and otherwise validated by the judge run, not proved. The converse '
-              'pigeonhole half of cycle_iff_error is not proved (certificate form only). Empty iterables of alternatives are '
-              'excluded (candidate finding C18-empty-alternatives-stale-requirement).')
+LEVEL_NOTE = ('Trusted: Coq kernel; hand-written model (validated by correspondence, shape-pinned); Python harness. Proved for every '
+              'constructor flavour and every add/remove sequence: the state is determined by the current declarations and every '
+              'answer of sorted() is accepted by the declarative judge (C18_model_judged); cycle_iff_error in both directions. '
+              'The tween/deriver scenario judges and the sentinel-only constraints of a Sorted answer are validated by the run, '
+              'not proved at judge level.')
 ALLOWED_AXIOMS = ()
 PROOF_TIMEOUT = 1500
 
